@@ -1080,7 +1080,7 @@ def gen_run(seed, params):
                 'seed': rng.randrange(1 << 30),
                 'theta': rng.choice([
                     rng.uniform(0.001, 0.999999), rng.uniform(0.3, 0.95), 0.5,
-                    0.9, 0.6
+                    0.9, 0.6, 0.999999, 0.99, 0.001, 0.05
                 ]),
                 'pt': [(lf[0] + lf[1]) // 2, (lf[2] + lf[3]) // 2],
                 'dom_axis': rng.randint(0, 1)
